@@ -124,6 +124,39 @@ def expected(case, start=0, clocks_exact=True):
     return R, L, spawn_at
 
 
+def expected_float(case):
+    """Timelines in binary64 for NRT programs on TempoClocks whose beat duration is NOT a dyadic rational (tempo 3,
+    1.1, 0.7 …), no tempo changes: beats accumulate exactly as `start beat + d0 + d1 + …` (float additions of dyadic
+    deltas), seconds are ONE conversion of that beat, `clock.beats` is one conversion back.  Same order of float
+    operations as the documented formulas beats2secs = (b - base_beats) * (1/tempo) + base_secs and
+    secs2beats = (s - base_secs) * tempo + base_beats with base = (0, 0)."""
+    tempo = [float(F(t)) for t in case['tempi']]
+    dur = [1.0 / t for t in tempo]
+
+    def b2s(clk, b):
+        return b if clk in ('sys', 'app') else (b - 0.0) * dur[int(clk[1:])] + 0.0
+
+    def s2b(clk, s):
+        return s if clk in ('sys', 'app') else (s - 0.0) * tempo[int(clk[1:])] + 0.0
+    R, L, todo = {}, {}, [(0, case['root'], 0.0)]
+    while todo:
+        rid, clk, s0 = todo.pop(0)
+        b = s2b(clk, s0)
+        secs = b2s(clk, b) if rid else s0
+        R[(rid, 0)] = (clk, s2b(clk, secs), secs)
+        L[rid] = []
+        for k, a in enumerate(case['rts'][rid]):
+            if a[0] == 'y':
+                b = b + float(F(a[1]))
+                secs = b2s(clk, b)
+                R[(rid, k + 1)] = (clk, s2b(clk, secs), secs)
+            elif a[0] == 'log':
+                L[rid].append((s2b(clk, secs), secs))
+            elif a[0] == 'spawn':
+                todo.append((a[1], a[2], secs))
+    return R, L
+
+
 def parse_trace(tr):
     evs, tail = tr.split(' | ')
     out = []
@@ -163,7 +196,30 @@ class Check(common.Check):
                 'distinct by full case')
 
     # ---- generator ------------------------------------------------------------------------------
+    def gen_float(self, rng):
+        """NRT programs on TempoClocks with an inexact beat duration; several routines whose deltas add up to the
+        same totals in different ways."""
+        tempi = [rng.choice(['3', '11/10', '7/10', '5/2', '7', '7/3', '6/5']) for _ in range(rng.choice([1, 1, 2]))]
+        clocks = [f't{i}' for i in range(len(tempi))]
+        n = rng.choice([2, 3, 4])
+        root = rng.choice(clocks + ['sys'])
+        rts = [[] for _ in range(n)]
+        for i in range(n):
+            total = rng.choice([2, 3, 4])
+            parts = []
+            while sum(F(p) for p in parts) < total:
+                parts.append(rng.choice(['1/4', '1/4', '1/2', '1', '1/8', '3/4']))
+            for d in parts:
+                rts[i] += [['y', d], ['log']] if rng.random() < 0.7 else [['y', d]]
+            rts[i].append(['y', '1'])
+        for i in range(1, n):
+            rts[0].insert(rng.randrange(0, 2), ['spawn', i, rng.choice(clocks)])
+        return {'tempi': tempi, 'root': root, 'rts': rts, 'late': None, 'klass': 'F', 'tail': '0', 'rerun': False,
+                'float': True}
+
     def gen_one(self, rng):
+        if rng.random() < 0.12:
+            return self.gen_float(rng)
         klass = rng.choice('AAABBCCD')
         nt = rng.choice([0, 1, 1, 2]) if klass == 'A' else rng.choice([1, 1, 2])
         if klass == 'D':
@@ -298,6 +354,8 @@ class Check(common.Check):
         return res
 
     def compare(self, case, io, mo):
+        if case.get('float'):
+            return None          # binary64 rounding is outside the Rat model: judged by the float oracle only
         d = {}
         if io['nrt']['trace'] != mo['nrt']:
             d['nrt'] = {'impl': io['nrt']['trace'], 'model': mo['nrt']}
@@ -366,8 +424,39 @@ class Check(common.Check):
             return {'what': f'{mode}: run failed: {out["error"]}', 'signature': f'c05:error:{mode}'}
         return None
 
-    def oracle(self, case, out):
+    def oracle_float(self, case, out):
+        R, L = expected_float(case)
         nrt = out['nrt']
+        if nrt.get('error'):
+            return {'what': f'NRT: the library failed or hung: {nrt["error"]}', 'signature': 'c05:error:nrt'}
+        evs, _, _ = parse_trace(nrt['trace'])
+        lcount = {}
+        for p in evs:
+            if p[0] == 'R':
+                rid, pc, beats, secs = int(p[1]), int(p[2]), F(p[4]), F(p[5])
+                exp = R.get((rid, pc))
+                if exp is None or (F(exp[1]), F(exp[2])) != (beats, secs):
+                    return {'what': f'nrt (binary64, tempo {case["tempi"]}): routine {rid} at its resumption #{pc} read '
+                                    f'{float(secs)!r} s / beat {float(beats)!r}; the beat is start + sum of deltas (exact) '
+                                    f'and its second ONE conversion of that beat: {exp and exp[2]!r} s / beat '
+                                    f'{exp and exp[1]!r} (routines with equal beat totals must read equal times)',
+                            'signature': 'c05:exact:nrt:float'}
+            elif p[0] == 'L':
+                rid = int(p[1])
+                k = lcount.get(rid, 0)
+                lcount[rid] = k + 1
+                if k >= len(L.get(rid, [])) or (F(L[rid][k][0]), F(L[rid][k][1])) != (F(p[2]), F(p[3])):
+                    return {'what': f'nrt (binary64): routine {rid} log #{k} read {float(F(p[3]))!r} s',
+                            'signature': 'c05:exact:nrt:float'}
+        return None
+
+    def oracle(self, case, out):
+        if case.get('float'):
+            return self.oracle_float(case, out)
+        nrt = out['nrt']
+        for what, o in (('NRT', nrt), ('NRT second play after main.reset()', nrt.get('rerun'))):
+            if o is not None and o.get('error'):
+                return {'what': f'{what}: the library failed or hung: {o["error"]}', 'signature': 'c05:error:nrt'}
         v = self.check_run(case, nrt, 'nrt', 0)
         if v:
             return v
